@@ -372,7 +372,7 @@ func (p *hsPair) fairSuffix() (completed bool) {
 func runC06(r *ev.Run) {
 	r.Rule = "schedules over the genuine messages of one honest session pair: deliver any pool message to either session (incl. reflection), Handshake() (retransmit), Send() when ready; exhaustive by re-execution to depth d with memoisation on (ranks, readiness, send counters, pool message kinds, data counters seen), random beyond; after every action: no panic, rank and readiness monotone, Handshake() idempotent and equal to the last reply; then a fair suffix of <=6 rounds must make both ready with crossed keys and deliver the first and second Send of each side. non-trivial = schedule perturbed (drop/dup/reorder/reflect) and completed; distinct = abstract-state hash"
 	depth := pick(r, 5, 7)
-	maxNodes := pick(r, 2500, 40000)
+	maxNodes := pick(r, 8000, 40000)
 	// ---- exhaustive part: the first action is dealt to batches
 	type node struct{ acts []hsAct }
 	replay := func(acts []hsAct, caseID string) *hsPair {
@@ -453,7 +453,7 @@ func runC06(r *ev.Run) {
 	r.Count("exhaustive_distinct_states", int64(len(seen)))
 	r.Count("fair_suffixes_run", int64(suffixes))
 	// ---- random schedules
-	nRand := pick(r, 1500, 60000)
+	nRand := pick(r, 5000, 60000)
 	g := rng.New(r.Seed, "C06", fmt.Sprint(r.Batch))
 	for i := 0; i < nRand; i++ {
 		caseID := fmt.Sprintf("rand-%d-%d", r.Batch, i)
